@@ -109,4 +109,71 @@ theorem filter_read_paths {m : FM} {es : Spec} (h : FMInv m es) (q : PF) :
   · rw [walkRev_eq, hv]
   · rw [walkMinus_eq, hv]
 
+/-! ### FilterMap<T, FasterTrie> histories -/
+
+def mfstep (st : Option FMF) : MOp → Option FMF
+  | .emp pf x => st.bind (fun m => m.emplace pf x)
+  | .rbd items => st.bind (fun m => FMF.ofTrie m.trie items)
+
+def MFOpOK (F : List Nat) (s : Spec × List Nat) : MOp → Prop
+  | .emp pf _ => ValidPF F pf ∧ pf ≠ []
+  | .rbd items => items.length = s.2.length
+
+def MFHistOK (F : List Nat) : Spec × List Nat → List MOp → Prop
+  | _, [] => True
+  | s, op :: ops => MFOpOK F s op ∧ MFHistOK F (mspecStep s op) ops
+
+theorem mfrun_inv (F : List Nat) (ops : List MOp) (m : FMF) (es : Spec) (h : FMFInv m es) (hmF : m.trie.F = F)
+    (hok : MFHistOK F (es, m.items) ops) :
+    ∃ m', ops.foldl mfstep (some m) = some m' ∧ FMFInv m' (ops.foldl mspecStep (es, m.items)).1 ∧
+      m'.items = (ops.foldl mspecStep (es, m.items)).2 ∧ m'.trie.F = F := by
+  induction ops generalizing m es with
+  | nil => exact ⟨m, rfl, h, rfl, hmF⟩
+  | cons op ops ih =>
+    obtain ⟨hop, hrest⟩ := hok
+    cases op with
+    | emp pf x =>
+      have hv : ValidPF m.trie.F pf := by rw [hmF]; exact hop.1
+      obtain ⟨m1, he, h'⟩ := FMFInv_emplace h hv hop.2 x
+      have hm1 : m1.items = m.items ++ [x] ∧ m1.trie.F = m.trie.F := by
+        cases pf with
+        | nil => exact absurd rfl hop.2
+        | cons kv r =>
+          simp only [FMF.emplace, FT.insert, Option.map_some, Option.some.injEq] at he
+          subst he; exact ⟨rfl, rfl⟩
+      have := ih m1 _ h' (by rw [hm1.2, hmF]) (by rw [hm1.1]; simpa [mspecStep] using hrest)
+      rw [hm1.1] at this
+      simpa [List.foldl_cons, mfstep, mspecStep, he] using this
+    | rbd items =>
+      have hl : items.length = m.items.length := hop
+      obtain ⟨hacc, h'⟩ := FMFInv_copy h items hl
+      have := ih ⟨m.trie, items⟩ es h' hmF (by simpa [mspecStep] using hrest)
+      simp only [List.foldl_cons, mfstep, Option.bind_some, hacc, mspecStep]
+      exact this
+
+/-- **C20, FilterMap<T, FasterTrie>** — every history of `emplace` (non-empty keys) and rebuilds from `(getTrie(), items)`: `filter(f)` for a
+    full or prefix assignment reads, through the IndexMap, exactly the items of the compatible entries (each once, every id inside the
+    container); `size()` is the number of entries -/
+theorem filtermapF_refines_spec (F : List Nat) (ops : List MOp) (hok : MFHistOK F ([], []) ops) :
+    ∃ m, ops.foldl mfstep (some ⟨FT.new F, []⟩) = some m ∧
+      let es := (ops.foldl mspecStep ([], [])).1
+      let its := (ops.foldl mspecStep ([], [])).2
+      (∀ f : List Nat, f.length ≤ F.length → (∀ j, j < f.length → f.getD j 0 < F.getD j 0) →
+        ∃ ids : List Nat, m.filter f = ids.map (fun id => its.getD id 0) ∧ ids.Nodup ∧
+          (∀ id, id ∈ ids ↔ id ∈ specFilter es (prefixPF 0 f)) ∧ ∀ id ∈ ids, id < its.length) ∧
+      m.trie.size = es.length ∧ es.length = its.length := by
+  obtain ⟨m, hr, hinv, hits, hmF⟩ := mfrun_inv F ops ⟨FT.new F, []⟩ [] (FMFInv_new F) rfl hok
+  have hlen : (ops.foldl mspecStep ([], [])).1.length = m.items.length := by
+    have := congrArg List.length hinv.2.1
+    simpa [specIds] using this
+  refine ⟨m, hr, ?_, ft_size_spec hinv.1, by rw [← hits]; exact hlen⟩
+  intro f hl hv
+  have := filtermapF_filter_spec hinv f (by rw [hmF]; exact hl) (by rw [hmF]; exact hv)
+  rw [hits] at this
+  exact this
+
+example : MFHistOK [3, 2] ([], []) [.emp [(0, 1)] 10, .emp [(1, 0)] 11, .rbd [20, 21], .emp [(0, 2), (1, 0)] 22] := by
+  simp [MFHistOK, MFOpOK, mspecStep, specInsert, ValidPF, KeysAsc]
+
+
 end AITB.Trie
